@@ -69,6 +69,24 @@ def bad_doctest(rng):
             [], [])
 
 
+def del_then_use_other_import(rng):
+    # the deleted name is known to the database under another import: adding it next to the file's own import of
+    # the same name is refused (ConflictingImportsError) — a deliberate refusal
+    return (rng.choice(["from foo9 import y9; del y9; print(y9)\n", "from foo9 import y9\ndel y9\nprint(y9)\n"]), ["import y9"], [])
+
+
+def type_comment_lookalikes(rng):
+    return (rng.choice(["import os\nprint(os.sep)  # type: int\n", "import os\nx = os.sep # type: str\nprint(1)  # type: (int) -> str\n",
+                        "import os\ns = \'\'\'\n# type: x\n\'\'\'\nx = [os]  # type: List[int]\n", "x = (  # type: int\n 1)\nimport sys\n",
+                        "def f(a,  # type: int\n      b):\n    # type: (...) -> None\n    pass\nimport os\n"]), [], [])
+
+
+def multiline_decorator(rng):
+    return (rng.choice(["import os\n@(\n  deco9\n)\ndef f(): pass\n", "import os\n@dec9\n@(\n  # c @x\n  deco9\n)\nclass A: pass\n",
+                        "import os\nif 1:\n    @(\n      deco9)\n    def f(): pass\nimport sys\n@ (\n\n deco9 @ 1)\nasync def g(): pass\n"]), [], [])
+
+
 SCENARIOS = [two_dotted_uses, import_after_use_same_line, midline_unused, future_and_caps, late_rebinding,
              dotted_prefix_use, del_then_use, header_doc, doctest_import, shadowing_param,
-             lambda_then_late_import, bad_doctest]
+             lambda_then_late_import, bad_doctest, del_then_use_other_import, type_comment_lookalikes,
+             multiline_decorator]
